@@ -673,9 +673,28 @@ static uint64_t hist_hash(const RunResult &r) {
     return h;
 }
 
+// process-wide state a run may have changed (a defect under test may install handlers, chdir, ...): every run starts
+// from the state captured at start-up, so that no run depends on the runs made before it in the same worker
+static struct sigaction g_sig0[65]; static sigset_t g_mask0; static unsigned g_umask0; static char g_cwd0[4096]; static bool g_proc0 = false;
+static void proc_state_capture() {
+    for (int sig = 1; sig < 65; sig++) sigaction(sig, nullptr, &g_sig0[sig]);
+    pthread_sigmask(SIG_SETMASK, nullptr, &g_mask0);
+    g_umask0 = (unsigned)raw_syscall6(SYS_umask, 022, 0, 0, 0, 0, 0); raw_syscall6(SYS_umask, g_umask0, 0, 0, 0, 0, 0);
+    if (raw_syscall6(SYS_getcwd, (long)g_cwd0, sizeof g_cwd0, 0, 0, 0, 0) <= 0) g_cwd0[0] = 0;
+    g_proc0 = true;
+}
+static void proc_state_restore() {
+    if (!g_proc0) return;
+    for (int sig = 1; sig < 65; sig++) { if (sig == SIGKILL || sig == SIGSTOP || sig == 32 || sig == 33 || sig == SIGALRM) continue; sigaction(sig, &g_sig0[sig], nullptr); }
+    pthread_sigmask(SIG_SETMASK, &g_mask0, nullptr);
+    raw_syscall6(SYS_umask, g_umask0, 0, 0, 0, 0, 0);
+    if (g_cwd0[0]) raw_syscall6(SYS_chdir, (long)g_cwd0, 0, 0, 0, 0, 0);
+}
+
 RunResult sim_run(const Plan &plan) {
     RunResult r;
     lib_state_restore();
+    proc_state_restore();
     G = Sim();
     G.w = plan.world; G.w.render_proc();
     G.w.stdout_bytes.clear(); G.w.stderr_bytes.clear(); G.w.tty_bytes.clear();
@@ -793,6 +812,7 @@ void sim_global_init() {
     if (!p_execv || !p_execve || !p_cli_init || !p_cli_exit || !p_optval) { dprintf(2, "harness problem: libsnoopy entry points missing\n"); _exit(2); }
     if (ver) { char b[128] = ""; ver(b, sizeof b, ""); g_snoopy_version = b; }
     lib_state_capture();
+    proc_state_capture();
     if (__sanitizer_install_malloc_and_free_hooks) __sanitizer_install_malloc_and_free_hooks(hook_malloc, hook_free);
     // probe: the recorder must be what the wrapper reaches
     Plan p; p.world.files["/simroot"] = FileNode{1, "", 0, 0, 0755};
